@@ -111,13 +111,17 @@ func c03Gen(seed uint64, run int, tier string) *Case {
 			if cancels && (mode == PHold || mode == PAsync) && r.Pct(50) {
 				// this request is cancelled by a Tflush through the implementation's FlushOp; its worker answers later
 				// all the same (with an error, often): the other requests' replies must not notice
-				c.Ops = append(c.Ops, reqOp(ci, ti, 200+i, mode, r.Pct(60), cnt, r.Pct(30), 1))
-				c.Ops = append(c.Ops, flushOp(ci, 300+i, 200+i, r.Pick(fpWhenHeld, fpNoWait), r.Pct(50)))
+				slot := 200 + i
+				if r.Bool() {
+					slot = i % nslots // under a tag that an earlier request has just given back (its reply has arrived, no more)
+				}
+				c.Ops = append(c.Ops, reqOp(ci, ti, slot, mode, r.Pct(60), cnt, r.Pct(30), 1))
+				c.Ops = append(c.Ops, flushOp(ci, 300+i, slot, r.Pick(fpWhenHeld, fpNoWait), r.Pct(50)))
 				if r.Pct(40) {
 					// a second and third Tflush naming the same request: each gets its own Rflush
-					c.Ops = append(c.Ops, flushOp(ci, 400+i, 200+i, r.Pick(fpWhenHeld, fpNoWait), r.Pct(50)))
+					c.Ops = append(c.Ops, flushOp(ci, 400+i, slot, r.Pick(fpWhenHeld, fpNoWait), r.Pct(50)))
 					if r.Pct(40) {
-						c.Ops = append(c.Ops, flushOp(ci, 500+i, 200+i, fpWhenHeld, r.Pct(50)))
+						c.Ops = append(c.Ops, flushOp(ci, 500+i, slot, fpWhenHeld, r.Pct(50)))
 					}
 				}
 				continue
